@@ -3,6 +3,7 @@ package c12
 import (
 	"fmt"
 	"math"
+	"math/bits"
 	"strconv"
 	"strings"
 	"time"
@@ -487,9 +488,13 @@ func xclass(x float64) string {
 		return "nonfinite"
 	case b == 0:
 		return "zero"
-	case b < 1<<32:
-		return "subnormal<2^-1042"
 	case b>>52 == 0:
+		// ftoa's d2b() stores the significand without its trailing zero bits in one or two 32-bit words; the
+		// one-word case with a non-zero low input word is a separate (and separately broken) path
+		w0, w1 := uint32(b>>32), uint32(b)
+		if w1 != 0 && w0>>uint(bits.TrailingZeros32(w1)) == 0 {
+			return "subnormal(1-word)"
+		}
 		return "subnormal"
 	}
 	return "normal"
